@@ -33,27 +33,53 @@
      <<5, c, res, line, col>>      literal(c).parse(stream, epsilon skipper):
      <<6, cs, res, line, col, ch>> char_set(cs).parse(...):  res = 1 success (ch = the character),
                                    0 failure whose message starts with "Line line:col: ",
-                                   -1 failure without a location, -2 exception            *)
+                                   -1 failure without a location, -2 exception
+   Extension round:
+     <<7, i, j, eq>>               position i == position j  (position_equal.hpp "Compares two
+                                   positions for equality"): eq = 1 / 0
+     <<8, i, line, col>>           the location of position i written with operator<< (location_output.hpp;
+                                   the documented error format "Line 1:3: ..." fixes it as line:col),
+                                   parsed back; -1 -1 if it does not have that form
+     <<9, r>>                      get_char_error (get_char_error.hpp: "The next character in a stream.
+                                   Returns the error message "EOF" on failure"): r >= 0 character, -1 failure
+                                   with the message EOF, -3 failure with another message, -2 exception
+     <<10, w, res, line, col>>     string(w).parse (basic_string_decl.hpp: "succeeds if the next input
+                                   characters are c_1, ..., c_n. Otherwise, an error is returned"): how much
+                                   input a FAILED string parser has consumed is not documented - the offset is
+                                   unknown afterwards (until a position is restored); its message carries no
+                                   location in the code and the documentation does not say: not judged.
+   Stream kinds of a recorded history (field "kind"): 0 std::basic_istringstream, 1 std::basic_stringstream
+   (in|out), 2 a stream buffer that cannot seek (tellg fails: get_position / the location of a mismatch may
+   throw - basic_stream does not say; only the characters are judged), 3 a stream buffer that throws when the
+   character at offset n ("failat") is requested: the std stream turns bad there ("a failing underlying
+   stream yields a failure, never a character"). *)
 EXTENDS Naturals, Integers, Sequences, FiniteSets, TLC, Json, TextPos
 
 CONSTANTS Sym,      \* alphabet (code points) used by the model checker
           MaxLen,   \* texts up to this length are explored
-          MaxOps    \* bound on the length of explored operation sequences
+          MaxOps,   \* bound on the length of explored operation sequences
+          WithFailAt \* explore underlying streams that fail at some offset as well
 
 (* NL, Line(text, off), Col(text, off): the documented definition, computed from scratch - module TextPos *)
 Position(text, off) == [off |-> off, line |-> Line(text, off), col |-> Col(text, off)]
 
 AtEnd(text, off) == off = Len(text)
 
-(* ---- what the specification decides for each call (s = [off, bad]) ---- *)
+(* ---- what the specification decides for each call
+        (s = [off, bad, failat, ...]; failat = -1: the underlying stream never fails by itself) ---- *)
+
+(* the underlying stream fails when the next character is requested *)
+Hits(s) == ~s.bad /\ s.off = s.failat
 
 (* get_char *)
 ModelGetChar(text, s) ==
-  IF s.bad THEN -2 ELSE IF AtEnd(text, s.off) THEN -1 ELSE text[s.off + 1]
+  IF s.bad THEN -2 ELSE IF Hits(s) \/ AtEnd(text, s.off) THEN -1 ELSE text[s.off + 1]
 ExplainsGetChar(text, s, r) ==
-  IF s.bad THEN r \in {-1, -2}                 \* a failure, never a character
+  IF s.bad \/ Hits(s) THEN r \in {-1, -2}     \* a failure, never a character
   ELSE r = ModelGetChar(text, s)                \* nothing exactly at the end, else a_{i+1}
 OffAfterGetChar(text, s, r) == IF r >= 0 THEN s.off + 1 ELSE s.off
+(* a request that hits the failing offset leaves the stream bad *)
+BadAfterRead(s) == s.bad \/ Hits(s)
 
 (* get_position: on a healthy stream it never fails (also at the end of input, also after a
    get_char that returned nothing) and returns the documented position *)
@@ -66,7 +92,7 @@ ExplainsSetPosition(s, ev) == s.bad \/ ev[3] = 0
 (* one-character parsers: consume one character; result / reported location *)
 ModelCharParser(text, s, accepts(_)) ==
   IF s.bad THEN [res |-> -2, line |-> 0, col |-> 0, ch |-> 0, off |-> s.off]
-  ELSE IF AtEnd(text, s.off) THEN [res |-> -1, line |-> 0, col |-> 0, ch |-> 0, off |-> s.off]
+  ELSE IF Hits(s) \/ AtEnd(text, s.off) THEN [res |-> -1, line |-> 0, col |-> 0, ch |-> 0, off |-> s.off]
   ELSE LET c == text[s.off + 1] IN
        IF accepts(c) THEN [res |-> 1, line |-> 0, col |-> 0, ch |-> c, off |-> s.off + 1]
        ELSE [res |-> 0, line |-> Line(text, s.off + 1), col |-> Col(text, s.off + 1), ch |-> 0,
@@ -76,10 +102,24 @@ ModelCharParser(text, s, accepts(_)) ==
    "failure" is demanded, with or without a location *)
 ExplainsCharParser(text, s, accepts(_), res, line, col, ch) ==
   LET m == ModelCharParser(text, s, accepts) IN
-  IF s.bad THEN res # 1
+  IF s.bad \/ Hits(s) THEN res # 1
   ELSE IF AtEnd(text, s.off) THEN res \in {0, -1}
   ELSE IF m.res = 1 THEN res = 1 /\ ch = m.ch
   ELSE res = 0 /\ line = m.line /\ col = m.col
+
+(* get_char_error: get_char with the failure turned into the error "EOF" *)
+ModelGetCharError(text, s) == ModelGetChar(text, s)
+ExplainsGetCharError(text, s, r) ==
+  IF s.bad \/ Hits(s) THEN r \in {-1, -2, -3}
+  ELSE r = ModelGetChar(text, s)                \* at the end: a failure whose message is EOF
+
+(* equality of two handed-out positions of one stream: equal iff they denote the same offset *)
+ModelPosEq(o1, o2) == IF o1 = o2 THEN 1 ELSE 0
+
+(* string(w): success iff the next characters are w *)
+StringMatches(text, s, w) ==
+  ~s.bad /\ s.off + Len(w) <= Len(text) /\ SubSeq(text, s.off + 1, s.off + Len(w)) = w
+  /\ (s.failat < 0 \/ s.failat >= s.off + Len(w))
 
 InSeq(c, cs) == \E k \in 1..Len(cs) : cs[k] = c
 
@@ -97,19 +137,22 @@ CSets == {<<10, 9>>}             \* char_set{'\n','\t'}: both outcomes occur
 
 AInit ==
   /\ text \in Texts
-  /\ st = [off |-> 0, bad |-> FALSE, saved |-> {}]
+  /\ \E fa \in (IF WithFailAt THEN -1..Len(text) ELSE {-1}) :
+       st = [off |-> 0, bad |-> FALSE, saved |-> {}, failat |-> fa]
   /\ hist = <<>>
 
-(* calls: <<1>>, <<2>>, <<3, off>>, <<4>>, <<5, c>>, <<6, cs>> *)
+(* calls: <<1>>, <<2>>, <<3, off>>, <<4>>, <<5, c>>, <<6, cs>>, <<9>> *)
 Calls(s) ==
-  {<<1>>, <<2>>} \cup {<<3, o>> : o \in s.saved} \cup (IF s.bad THEN {} ELSE {<<4>>})
+  {<<1>>, <<2>>} \cup (IF WithFailAt THEN {<<9>>} ELSE {})   \* get_char_error only in the extension configurations
+  \cup {<<3, o>> : o \in s.saved} \cup (IF s.bad THEN {} ELSE {<<4>>})
   \cup {<<5, c>> : c \in LitChars} \cup {<<6, cs>> : cs \in CSets}
 
 (* the abstract effect of a call: new state and the history entry (the model resolves the
    open choices on a bad stream to "exception, nothing changes") *)
 AEff(t, s, c) ==
-  CASE c[1] = 1 -> LET r == ModelGetChar(t, s) IN
-                   [st |-> [s EXCEPT !.off = OffAfterGetChar(t, s, r)], ev |-> <<1, r>>]
+  CASE c[1] \in {1, 9} ->
+                   LET r == ModelGetChar(t, s) IN
+                   [st |-> [s EXCEPT !.off = OffAfterGetChar(t, s, r), !.bad = BadAfterRead(s)], ev |-> <<c[1], r>>]
     [] c[1] = 2 -> IF s.bad THEN [st |-> s, ev |-> <<2, -2>>]
                    ELSE LET p == Position(t, s.off) IN
                         [st |-> [s EXCEPT !.saved = @ \cup {s.off}], ev |-> <<2, 0, p.off, p.line, p.col>>]
@@ -117,9 +160,9 @@ AEff(t, s, c) ==
                    ELSE [st |-> [s EXCEPT !.off = c[2]], ev |-> <<3, c[2], 0>>]
     [] c[1] = 4 -> [st |-> [s EXCEPT !.bad = TRUE], ev |-> <<4>>]
     [] c[1] = 5 -> LET m == ModelCharParser(t, s, LAMBDA x : x = c[2]) IN
-                   [st |-> [s EXCEPT !.off = m.off], ev |-> <<5, c[2], m.res, m.line, m.col>>]
+                   [st |-> [s EXCEPT !.off = m.off, !.bad = BadAfterRead(s)], ev |-> <<5, c[2], m.res, m.line, m.col>>]
     [] c[1] = 6 -> LET m == ModelCharParser(t, s, LAMBDA x : InSeq(x, c[2])) IN
-                   [st |-> [s EXCEPT !.off = m.off], ev |-> <<6, c[2], m.res, m.line, m.col, m.ch>>]
+                   [st |-> [s EXCEPT !.off = m.off, !.bad = BadAfterRead(s)], ev |-> <<6, c[2], m.res, m.line, m.col, m.ch>>]
 
 AStep(c) ==
   /\ Len(hist) < MaxOps
@@ -130,11 +173,12 @@ AStep(c) ==
 
 AGetChar == Len(hist) >= 0 /\ AStep(<<1>>)
 AGetPosition == Len(hist) >= 0 /\ AStep(<<2>>)
+AGetCharError == WithFailAt /\ AStep(<<9>>)   \* only in the extension configurations
 ASetPosition == \E o \in st.saved : AStep(<<3, o>>)
 ASetBad == ~st.bad /\ AStep(<<4>>)
 ALiteral == Len(hist) >= 0 /\ \E c \in LitChars : AStep(<<5, c>>)
 ACharSet == Len(hist) >= 0 /\ \E cs \in CSets : AStep(<<6, cs>>)
-ANext == AGetChar \/ AGetPosition \/ ASetPosition \/ ASetBad \/ ALiteral \/ ACharSet
+ANext == AGetChar \/ AGetCharError \/ AGetPosition \/ ASetPosition \/ ASetBad \/ ALiteral \/ ACharSet
 ASpec == AInit /\ [][ANext]_avars
 AView == <<text, st>>
 AViewDepth == <<text, st, Len(hist)>>
@@ -145,6 +189,9 @@ ATypeOK ==
   /\ st.off \in 0..Len(text)
   /\ st.saved \subseteq 0..Len(text)
   /\ st.bad \in BOOLEAN
+  /\ st.failat \in -1..Len(text)
+  \* no character at or beyond the failing offset is ever consumed
+  /\ st.failat >= 0 => st.off <= st.failat
 
 (* the from-scratch definition has the incremental characterisation every implementation
    relies on; line and column are at least 1; the start is 1:1 *)
@@ -162,6 +209,7 @@ PosLaws ==
 ModelExplained ==
   LET s == st IN
   /\ ExplainsGetChar(text, s, ModelGetChar(text, s))
+  /\ ExplainsGetCharError(text, s, ModelGetCharError(text, s))
   /\ ExplainsGetPosition(text, s, AEff(text, s, <<2>>).ev)
   /\ \A c \in LitChars :
        LET m == ModelCharParser(text, s, LAMBDA x : x = c) IN
@@ -175,5 +223,9 @@ Future(t, o) == [k \in 0..(Len(t) - o) |->
    set_position) and stay so *)
 SavedValid == \A o \in st.saved : o \in 0..Len(text) /\ Future(text, o)[0].pos = Position(text, o)
 
-EmitScripts == PrintT("SCRIPT " \o ToJson([text |-> text, hist |-> hist]))
+(* two handed-out positions are equal exactly when they denote the same offset (what operator==
+   of positions decides: offset and location) *)
+EqLaw == \A o1 \in st.saved : \A o2 \in st.saved : (Position(text, o1) = Position(text, o2)) = (ModelPosEq(o1, o2) = 1)
+
+EmitScripts == PrintT("SCRIPT " \o ToJson([text |-> text, failat |-> st.failat, hist |-> hist]))
 =============================================================================
